@@ -54,8 +54,10 @@ PROPS = {
                 theorems=['DW.C05_skip_uniform', 'DW.C05_skip_hash_superset', 'DW.C05_eq_iff_pcmp', 'DW.C05_eq_symm', 'DW.C05_eq_trans',
                           'DW.C05_lt_gt', 'DW.C05_eq_hash', 'DW.C04_agree'],
                 enums=['skip', 'incomparable', 'invalid'], design='7/C05'),
-    'C06': dict(traits=None, part='all', item_filter='skip', theorems=['DW.Skip.traitSkipped_eq_covers', 'DW.C06_invisible_eq', 'DW.C06_invisible_hash',
-                                                                         'DW.C06_unskippable', 'DW.C06_no_demand_eq'],
+    'C06': dict(traits=None, part='all', item_filter='skip', theorems=['DW.Skip.traitSkipped_eq_covers', 'DW.C06_invisible_eq', 'DW.C06_invisible_pcmp', 'DW.C06_invisible_hash',
+                                                                         'DW.C06_invisible_debug', 'DW.C06_invisible_zeroize', 'DW.C06_visible_eq',
+                                                                         'DW.relevantIdx_unskippable', 'DW.C06_unskippable_clone',
+                                                                         'DW.C06_unskippable_default', 'DW.C06_no_demand_eq'],
                 enums=['skip', 'debug', 'zeroize'], design='7/C06'),
     'C07': dict(traits=['PartialEq', 'PartialOrd'], theorems=['DW.C07_marked_eq', 'DW.C07_marked_pcmp', 'DW.C07_eq_eval', 'DW.C07_pcmp_eval',
                                                                'DW.C07_unaffected_eq', 'DW.C07_unaffected_pcmp'],
